@@ -32,8 +32,8 @@ import struct
 from harness import c04
 
 STREAMS = ['recv-exhaustive', 'recv-random', 'recv-handshake', 'recv-malformed', 'sender-layout',
-           'sender-callremote', 'end-to-end-constructed', 'info-of-parse']
-# implementation-only stream (no model: the model's handlers neither re-enter nor raise): 'recv-reentrant'
+           'sender-callremote', 'end-to-end-constructed', 'info-of-parse', 'recv-reentrant', 'recv-connections',
+           'sender-default-list']
 THEOREMS = ['sender_layout', 'attribution', 'attribution_after_handshake', 'attribution_callRemote',
             'sender_calls_consistent', 'model_rules_match_source',
             'info_of_constructed', 'descriptors_end_to_end', 'descriptors_end_to_end_sender',
@@ -44,7 +44,9 @@ TRUSTED_BASE = [
     'probe list; in end-to-end-constructed / info-of-parse it is the model\'s own infoOfParse (C03 parseMessage model)',
     'bodies are abstracted to trees (descriptor leaf / other leaf / sequence); the harness maps signatures '
     'h, ah, (..), a(..), a{sh}, a{hs} onto them',
-    'the environment model (Consistent in Proto/Fds.lean): SCM_RIGHTS ordering, Twisted >= 17.1 sendFileDescriptor',
+    'the environment model (Consistent in Proto/Fds.lean): SCM_RIGHTS ordering, Twisted >= 17.1 sendFileDescriptor; '
+    'NO DESCRIPTOR IS LOST on the way (at RLIMIT_NOFILE / EMFILE the kernel drops descriptors and flags MSG_CTRUNC; txdbus '
+    'never resynchronises, every later attribution would shift) - outside the stated environment, assumed',
 ]
 ASSUMPTIONS = [
     'the parser reads back from a message the unix_fds header field and the index values that _marshal wrote '
@@ -305,10 +307,25 @@ def capq(q):
 
 
 class Probe(list):
-    """A descriptor list that answers every index with the index itself."""
+    """A descriptor list that answers every index with the index itself - also for code that checks the bounds first
+    (`i < len(oobFDs)`), slices before indexing (`oobFDs[:n][i]`) or tests it for truth; iterating it yields nothing."""
 
     def __getitem__(self, i):
+        if isinstance(i, slice):
+            return self
         return ('idx', i)
+
+    def __len__(self):
+        return 2 ** 40
+
+    def __bool__(self):
+        return True
+
+    def __iter__(self):
+        return iter(())
+
+    def __contains__(self, x):
+        return False
 
 
 class FD(int):
@@ -412,6 +429,39 @@ def recv_classes(ctx):
     return _CLS[ctx.repo]
 
 
+_STUB = {}
+
+
+def make_binary_receiver(ctx, cls=None, want_body=False):
+    """A receiver in binary mode made the way a reactor makes it (state-leak round 2026-09-30, STATE_AUDIT G3):
+    `p = Class()`, the public `authenticator` hook (a stub that accepts the first line), `p.makeConnection(transport)`,
+    then ONE read `BEGIN\r\n`.  Nothing of the receiver's state (`_receivedFDs`, `_authenticated`, `_buffer`) is set by
+    hand: a queue that is not per connection shows."""
+    from twisted.internet.testing import StringTransport
+    from txdbus import protocol
+    P, _ = recv_classes(ctx)
+    key = ctx.repo
+    if key not in _STUB:
+        _, _, StubAuth, _, _ = c04.classes(ctx)
+        stub = type('StubAuthS', (StubAuth,), {'script': 's'})
+        from zope.interface import classImplements
+        classImplements(stub, protocol.IDBusAuthenticator)
+        _STUB[key] = stub
+    tr = StringTransport()
+    tr.socket = c04._FakeSocket()
+    p = (cls or P)()
+    p.log = []
+    p.effects = []
+    p.want_body = want_body
+    p.authenticator = _STUB[key]
+    p.factory = c04._FakeFactory()
+    p.makeConnection(tr)
+    p.dataReceived(b'BEGIN\r\n')
+    if not p._authenticated:
+        raise c04.HarnessFault('the stub handshake did not put the receiver into binary mode')
+    return p, tr
+
+
 def observe(ctx, events, mode='binary', script='', linux=False, want_body=False):
     from twisted.internet.testing import StringTransport
     from txdbus import protocol
@@ -423,12 +473,7 @@ def observe(ctx, events, mode='binary', script='', linux=False, want_body=False)
     wrapbox = []
     try:
         if mode == 'binary':
-            p = P()
-            p.log = []
-            p.want_body = want_body
-            p.transport = tr
-            p._receivedFDs = []
-            p._authenticated = True
+            p, tr = make_binary_receiver(ctx, want_body=want_body)
         else:
             _, _, StubAuth, Wrap, authentication = c04.classes(ctx)
 
@@ -604,6 +649,8 @@ class Batch:
 
 # --------------------------------------------------------------------------------------- event sequences
 def scenario(msgs, events):
+    if sum(len(m['fds']) for m in msgs) > QCAP:
+        raise c04.HarnessFault('a generated scenario queues more than QCAP=%d descriptors: raise QCAP' % QCAP)
     return {'msgs': [{'raw': m['raw'].hex(), 'fds': m['fds'], 'sig': m.get('sig', '')} for m in msgs],
             'raws': [m['raw'].hex() for m in msgs], 'events': events}
 
@@ -862,9 +909,20 @@ class RecTransport:
         self.disconnecting = True
 
 
+def norm_calls(calls):
+    """Transport calls with consecutive writes taken as one (a sendMessage that writes header and body separately is
+    correct: what matters is that every descriptor is handed over before the first byte and the bytes are the message)."""
+    out = []
+    for c in calls:
+        if c == 'W' and out and out[-1] == 'W':
+            continue
+        out.append(c)
+    return out
+
+
 def sender_obs(raw, oob, calls):
     decl, idx = info_of(raw)
-    return 'hdr=%s idx=%s oob=%s send=%s' % ('-' if decl is None else decl, nl(idx), nl(oob), ' '.join(calls))
+    return 'hdr=%s idx=%s oob=%s send=%s' % ('-' if decl is None else decl, nl(idx), nl(oob), ' '.join(norm_calls(calls)))
 
 
 def judge_sender(fds, obs_line, decl, idx, oob, calls):
@@ -884,7 +942,7 @@ def judge_sender(fds, obs_line, decl, idx, oob, calls):
         return 'sender-indices', 'index values %r for %d descriptor arguments' % (idx, k)
     if oob != fds:
         return 'sender-oob-order', 'out-of-band list %r, arguments carry %r' % (oob, fds)
-    if calls != ['f%d' % d for d in fds] + ['W']:
+    if norm_calls(calls) != ['f%d' % d for d in fds] + ['W']:
         return 'sender-send-order', 'transport calls %r' % (calls,)
     return None, None
 
@@ -912,7 +970,7 @@ def stream_sender(ctx):
             conn.callRemote('/a', 'M', signature='s', body=['x'], expectReply=expect)
         except Exception:
             pass
-        if tr0.calls != ['W']:
+        if norm_calls(tr0.calls) != ['W']:
             callremote_works = False
     if not callremote_works:
         ctx.note('sender-callremote: a plain callRemote on a bare DBusClientConnection writes nothing - the harness '
@@ -952,7 +1010,7 @@ def stream_sender(ctx):
         ctx.impl_trace()
         lines.append('S %d %s %s' % (1 if sig else 0, nl(oob0), ' '.join(toks)))
         writes = getattr(tr, 'writes', [])
-        raw = m.rawMessage if m is not None else (writes[0] if len(writes) == 1 else None)
+        raw = m.rawMessage if m is not None else (b''.join(writes) if writes else None)
         # the out-of-band list: the message's own when we hold the object, else what was handed to the transport
         oob = list(m.oobFDs or []) if m is not None else [int(c[1:]) for c in tr.calls if c != 'W']
         obs.append((raw, oob, list(tr.calls), mode, fds, len(writes)))
@@ -983,7 +1041,7 @@ def stream_sender(ctx):
     conn.callRemote('/a', 'M', signature='h', body=[11], expectReply=False)
     conn.callRemote('/a', 'M', signature='h', body=[12], expectReply=True)
     ctx.case('sender-callremote', sample={'two-calls': tr.calls})
-    if tr.calls != ['f11', 'W', 'f12', 'W'] and callremote_works:
+    if norm_calls(tr.calls) != ['f11', 'W', 'f12', 'W'] and callremote_works:
         got = sorted(c for c in tr.calls if c != 'W')
         key = ('sender-descriptors-not-transmitted' if len(got) < 2 else
                'sender-list-reused' if got != ['f11', 'f12'] else 'sender-send-order')
@@ -1045,11 +1103,8 @@ def observe_reentrant(ctx, events, nest, raise_at):
         methodCallReceived = methodReturnReceived = errorReceived = signalReceived = _handler
 
     try:
-        p = PNest()
-        p.log, p.stack = [], []
-        p.transport = StringTransport()
-        p._receivedFDs = []
-        p._authenticated = True
+        p, _tr = make_binary_receiver(ctx, cls=PNest)
+        p.stack = []
     except (AttributeError, TypeError) as e:
         raise c04.HarnessFault('setting up the re-entrant receiver failed: %s: %s' % (type(e).__name__, e))
     crashed, raised = None, 0
@@ -1074,7 +1129,10 @@ def observe_reentrant(ctx, events, nest, raise_at):
 
 
 def judge_reentrant(sc, o):
-    """Implementation only.  Framing under re-entrant or failing handlers is C04's subject: when the messages whose
+    """NOT a property oracle (review 3, F2): these schedules are outside the property's quantifier - "every interleaving
+    of descriptor arrival and byte arrival a stream socket can produce": a socket never delivers a read while a handler
+    runs, and a reactor drops the connection when an exception escapes dataReceived.  The result only labels the
+    correspondence disagreement (`reentrant-...`) that `run_reentrant` reports against the Lean model.  Framing under re-entrant or failing handlers is C04's subject: when the messages whose
     handler was entered are not the first messages of the stream, in order, nothing is judged here.  Otherwise every
     message whose handler was entered must have seen, in every `h` argument, the descriptor attached to IT at that
     position ("a descriptor is never attributed to another message"), and when every event has been delivered the
@@ -1087,13 +1145,13 @@ def judge_reentrant(sc, o):
         return None, None
     for i, (d, m) in enumerate(zip(o['log'], msgs)):
         if d['args'] != m['fds']:
-            return ('descriptor-misattributed',
+            return ('reentrant-descriptor-misattributed',
                     'message %d (sent with %r) saw its h arguments as %r (handlers re-entering: %r, handler raising at '
                     'message %r)' % (i, m['fds'], d['args'], sc['nest'], sc['raise_at']))
     arrived = [int(e[1:]) for e in sc['events'] if e[0] == 'f']
     used = sum(len(m['fds']) for m in msgs[:len(o['log'])])
     if o['queue'] != arrived[used:]:
-        return ('descriptor-consumption',
+        return ('reentrant-descriptor-consumption',
                 'after all events %d messages had been delivered (their %d descriptors resolved); the queue holds %r, '
                 'the descriptors received for later messages are %r (handler raising at message %r)'
                 % (len(o['log']), used, o['queue'], arrived[used:], sc['raise_at']))
@@ -1103,6 +1161,7 @@ def judge_reentrant(sc, o):
 def stream_recv_reentrant(ctx):
     rng = ctx.rng
     n = ctx.scale(quick=700, thorough=15000)
+    scs = []
     for _ in range(n):
         k = rng.choice([2, 3, 4, 6, 9])
         msgs = [gen_msg(rng, i) for i in range(k)]
@@ -1127,30 +1186,296 @@ def stream_recv_reentrant(ctx):
             raise_at = rng.randrange(k)
         sc = scenario(msgs, events)
         sc.update(nest=dict((str(a), b) for a, b in nest.items()), raise_at=raise_at, mode='reentrant')
-        run_reentrant(ctx, sc)
+        scs.append(sc)
+    run_reentrant_batch(ctx, scs)
 
 
 def run_reentrant(ctx, sc):
-    nest = dict((int(a), b) for a, b in (sc.get('nest') or {}).items())
-    try:
-        o = observe_reentrant(ctx, sc['events'], nest, sc.get('raise_at'))
-    except c04.HarnessFault as e:
-        SKIPPED['recv-reentrant'] = SKIPPED.get('recv-reentrant', 0) + 1
-        if SKIPPED['recv-reentrant'] == 1:
-            ctx.note('stream recv-reentrant: scenario skipped, the harness could not run it (%s)' % e)
+    run_reentrant_batch(ctx, [sc])
+
+
+def run_reentrant_batch(ctx, scs):
+    done = []
+    for sc in scs:
+        nest = dict((int(a), b) for a, b in (sc.get('nest') or {}).items())
+        try:
+            o = observe_reentrant(ctx, sc['events'], nest, sc.get('raise_at'))
+        except c04.HarnessFault as e:
+            SKIPPED['recv-reentrant'] = SKIPPED.get('recv-reentrant', 0) + 1
+            if SKIPPED['recv-reentrant'] == 1:
+                ctx.note('stream recv-reentrant: scenario skipped, the harness could not run it (%s)' % e)
+            continue
+        ctx.case('recv-reentrant', sample={'msgs': sc['msgs'], 'events': sc['events'], 'nest': sc.get('nest'),
+                                           'raise_at': sc.get('raise_at')},
+                 nontrivial=any(d['args'] for d in o['log']))
+        ctx.stat('recv-reentrant:nested=%s raises=%s' % (bool(nest), sc.get('raise_at') is not None))
+        ctx.stat('recv-reentrant:handler-raised=%d' % o['raised'])
+        if o['crashed']:
+            ctx.stat('recv-reentrant:exception=%s(not compared: framing is C04)' % o['crashed'])
+            continue
+        done.append((sc, o))
+    # S3 only (review 3, F2: these schedules are outside the property's quantifier - no violation is raised from them).
+    # The Lean receiver (handlers return; the declared count is consumed BEFORE the hook - also C04's
+    # `Receive.handleFrame`) on the same events in their linear order: under that order of consumption a nested or
+    # aborted delivery changes nothing, so the messages in the order their handlers were entered, what each saw in its
+    # `h` arguments, and the final buffer and queue must be the model's.
+    lines = [model_line(dict(sc, mode='binary')) + (' r-' if o['raised'] else '') for sc, o in done]
+    out = ctx.model(lines)
+    if out is None:
         return
-    ctx.case('recv-reentrant', sample={'msgs': sc['msgs'], 'events': sc['events'], 'nest': sc.get('nest'),
-                                       'raise_at': sc.get('raise_at')},
-             nontrivial=any(d['args'] for d in o['log']))
-    ctx.stat('recv-reentrant:nested=%s raises=%s' % (bool(nest), sc.get('raise_at') is not None))
-    ctx.stat('recv-reentrant:handler-raised=%d' % o['raised'])
-    if o['crashed']:
-        ctx.stat('recv-reentrant:exception=%s(not judged: framing is C04)' % o['crashed'])
-    key, what = judge_reentrant(sc, o)
-    if key:
-        ctx.violation(key, what, inp=sc, observed={'log': o['log'], 'queue': o['queue']},
-                      expected='every h argument of a delivered message = the descriptor attached to it at that position; '
-                               'the descriptors of a message whose handler failed are consumed like any other')
+    for (sc, o), mo in zip(done, out):
+        head, _, tail = mo.rpartition(' | ')
+        mdl = ' '.join('D ' + ' '.join(seg.split()[:2]) for seg in head.split('D ')[1:] if seg.strip())
+        impl = ' '.join('D %s a=%s' % (d['raw'] or '-', nl(d['args'])) for d in o['log'])
+        mdl += ' | ' + tail
+        impl += ' | ' + (o['buffer'] or '-') + ' ' + nl(o['queue'])
+        if mdl != impl:
+            key, what = judge_reentrant(sc, o)
+            ctx.disagree('recv-reentrant', sc, c04.clip(mdl), c04.clip(impl),
+                         detail='%s: %s' % (key or 'reentrant-delivery-differs', what or 'see model / impl'))
+
+
+
+# --------------------------------------------------------------------------------------- several live connections
+# State-leak round 2026-09-30 (STATE_AUDIT G3, TODO C20): two or three receivers alive in one process, each made by
+# `makeConnection` (nothing planted), their events interleaved; one of them may be LOST with a descriptor still queued,
+# after which a new connection is made.  The descriptor queue is per connection: `judge()` and the Lean model (one
+# independent receiver per connection) are applied to every connection on its own events.
+def observe_connections(ctx, nconn, steps):
+    """steps: ['c<i>'] connect connection i | ['l<i>'] connection i is lost | ['e<i>', event] an event for connection i.
+    -> per connection the observation of `observe` (log, buffer, queue, crashed)."""
+    from twisted.python import failure
+    from twisted.internet import error as ierror
+    conns, dead, crashed = {}, set(), {}
+    for st in steps:
+        op, i = st[0][0], int(st[0][1:])
+        if op == 'c':
+            conns[i] = make_binary_receiver(ctx)[0]
+        elif op == 'l':
+            dead.add(i)
+            try:
+                conns[i].connectionLost(failure.Failure(ierror.ConnectionDone()))
+            except Exception as e:
+                crashed.setdefault(i, type(e).__name__)
+        elif i in conns and i not in dead and i not in crashed:
+            ev = st[1]
+            try:
+                if ev[0] == 'f':
+                    conns[i].fileDescriptorReceived(FD(int(ev[1:])))
+                else:
+                    conns[i].dataReceived(bytes.fromhex(ev[1:]))
+            except Exception as e:
+                import traceback
+                tb = traceback.extract_tb(e.__traceback__)
+                if isinstance(e, (AttributeError, TypeError)) and tb and tb[-1].filename.endswith(
+                        ('harness/c04.py', 'harness/c20.py')):
+                    raise c04.HarnessFault('%s inside the harness at line %d: %s' % (type(e).__name__, tb[-1].lineno, e))
+                crashed[i] = type(e).__name__
+    ctx.impl_trace()
+    out = []
+    for i in range(nconn):
+        p = conns.get(i)
+        if p is None:
+            out.append(None)
+            continue
+        out.append({'log': p.log, 'buffer': bytes(p._buffer).hex(), 'queue': capq(p._receivedFDs),
+                    'crashed': crashed.get(i), 'effects': [], 'script': '', 'auth': 1, 'closed': 0})
+    return out
+
+
+def gen_connections(rng):
+    nconn = rng.choice([2, 2, 3])
+    per = []
+    for c in range(nconn):
+        k = rng.choice([1, 2, 3])
+        msgs = [gen_msg(rng, i) for i in range(k)]
+        if not any(m['fds'] for m in msgs):
+            msgs[rng.randrange(k)] = gen_msg(rng, 0, want=rng.choice([1, 2, 3]))
+        # some connections share the descriptor NUMBERS of another one (a descriptor number means nothing across
+        # connections), most have a range of their own
+        shift = 0 if rng.random() < 0.3 else 10000 * (c + 1)
+        if shift:
+            for m in msgs:
+                # the numbers are only stand-ins: renumbering the injected descriptors, not the bytes
+                m['fds'] = [d + shift for d in m['fds']]
+        stream = b''.join(m['raw'] for m in msgs)
+        reads = c04.random_partition(rng, stream)
+        fds = [d for m in msgs for d in m['fds']]
+        events = interleave(reads, fds, random_slots(rng, deadlines(msgs, reads), len(reads)))
+        per.append({'msgs': msgs, 'events': events})
+    # the loss: a connection whose events stop right after a descriptor arrived (it stays queued), then a NEW connection
+    lost = None
+    if rng.random() < 0.5:
+        lost = rng.randrange(nconn)
+        ev = per[lost]['events']
+        cut = [j + 1 for j, e in enumerate(ev) if e[0] == 'f']
+        if cut:
+            per[lost]['events'] = ev[:rng.choice(cut)]
+        else:
+            lost = None
+    # merge, keeping each connection's own order; a connection is made at a random moment before its first event
+    pos = [0] * nconn
+    steps, made = [], set()
+    order = list(range(nconn))
+    late = set(c for c in order if rng.random() < 0.5)          # connected only when its first event is due
+    for c in order:
+        if c not in late:
+            steps.append(['c%d' % c])
+            made.add(c)
+    live = [c for c in order if per[c]['events']]
+    while live:
+        c = rng.choice(live)
+        if lost is not None and c != lost and lost in live and rng.random() < 0.3:
+            c = lost                                              # the lost one tends to finish early
+        if c not in made:
+            steps.append(['c%d' % c])
+            made.add(c)
+        steps.append(['e%d' % c, per[c]['events'][pos[c]]])
+        pos[c] += 1
+        if pos[c] == len(per[c]['events']):
+            live.remove(c)
+            if c == lost:
+                steps.append(['l%d' % c])
+    for c in order:
+        if c not in made:
+            steps.append(['c%d' % c])
+    return {'mode': 'connections', 'nconn': nconn, 'steps': steps, 'lost': lost,
+            'conns': [scenario(x['msgs'], x['events']) for x in per]}
+
+
+def run_connections_batch(ctx, scs):
+    done = []
+    for sc in scs:
+        try:
+            obs = observe_connections(ctx, sc['nconn'], sc['steps'])
+        except c04.HarnessFault as e:
+            SKIPPED['recv-connections'] = SKIPPED.get('recv-connections', 0) + 1
+            if SKIPPED['recv-connections'] == 1:
+                ctx.note('stream recv-connections: scenario skipped, the harness could not run it (%s)' % e)
+            continue
+        done.append((sc, obs))
+    lines, where = [], []
+    for n, (sc, obs) in enumerate(done):
+        for i, o in enumerate(obs):
+            if o is not None:
+                lines.append(model_line(sc['conns'][i]))
+                where.append((n, i))
+    out = ctx.model(lines)
+    mo = dict(zip(where, out)) if out is not None else {}
+    for n, (sc, obs) in enumerate(done):
+        ctx.case('recv-connections', sample={'steps': sc['steps'], 'lost': sc['lost']},
+                 nontrivial=any(o and any(d['args'] for d in o['log']) for o in obs))
+        ctx.stat('recv-connections:connections=%d lost=%s' % (sc['nconn'], sc['lost'] is not None))
+        for i, o in enumerate(obs):
+            if o is None:
+                continue
+            if (n, i) in mo and not o['crashed']:
+                il = impl_line(o)
+                if mo[(n, i)] != il:
+                    ctx.disagree('recv-connections', {'scenario': sc, 'connection': i}, c04.clip(mo[(n, i)]), c04.clip(il))
+            key, what = judge(sc['conns'][i], o)
+            if key:
+                # the whole history is the replay input: a single connection of it does not reproduce a leak
+                ctx.violation(key, 'connection %d of %d live connections: %s' % (i, sc['nconn'], what), inp=sc,
+                              observed={'log': o['log'], 'queue': o['queue']},
+                              expected='every connection resolves its messages against the descriptors received on THAT '
+                                       'connection')
+                break
+
+
+def stream_recv_connections(ctx):
+    rng = ctx.rng
+    n = ctx.scale(quick=500, thorough=10000)
+    run_connections_batch(ctx, [gen_connections(rng) for _ in range(n)])
+
+
+# --------------------------------------------------------------------------------------- `oobFDs` omitted
+def stream_sender_default_list(ctx):
+    """State-leak round (STATE_AUDIT G2): histories of 3-5 `MethodCallMessage(...)` constructions WITHOUT the `oobFDs`
+    keyword (a mutable default argument would accumulate), some with `h` in the body, each followed by `sendMessage`.
+    Every construction that succeeds is judged by `judge_sender` like any other message (header = the message's OWN
+    count, indices from 0, `f.. W`); the Lean side (driver X, `oobFDs=None`) says which constructions fail and with what."""
+    rng = ctx.rng
+    marshal, message, protocol = _mods()
+    from harness import valcodec
+    n = ctx.scale(quick=150, thorough=3000)
+    hist = []
+    for _ in range(n):
+        items = []
+        for i in range(rng.choice([3, 4, 5])):
+            if rng.random() < 0.55:
+                k = rng.choice([1, 1, 2])
+                fds = [rng.randrange(3, 60) for _ in range(k)]
+                sig, body, tree = 'h' * k, list(fds), ' '.join('h%d' % d for d in fds)
+            else:
+                sig, body, trees = gen_plain(rng)
+                fds, toks = [], []
+                for t in trees:
+                    toks += tree_tokens(t)
+                tree = ' '.join(toks) or '-'
+            try:
+                m = message.MethodCallMessage('/a', 'M', signature=sig, body=body)
+                err = None
+            except Exception as e:
+                m, err = None, type(e).__name__
+            calls = None
+            if m is not None:
+                tr = RecTransport()
+                p = protocol.BasicDBusProtocol()
+                p.transport = tr
+                try:
+                    p.sendMessage(m)
+                    calls = list(tr.calls)
+                except Exception as e:
+                    calls = ['!' + type(e).__name__]
+            body_toks = ['N'] if body is None else valcodec.to_line(body).split()
+            # when the construction failed no serial was taken: the model is given the counter as it stands
+            nxt = m.serial if m is not None else None
+            items.append({'sig': sig, 'body': body, 'fds': fds, 'tree': tree, 'msg': m, 'err': err, 'calls': calls,
+                          'body_toks': body_toks, 'next': nxt})
+        ctx.impl_trace()
+        hist.append(items)
+    lines = []
+    for items in hist:
+        toks = ['X', str(len(items))]
+        for x in items:
+            nxt = x['next'] if x['next'] is not None else 1
+            toks += ['call', str(nxt), str(message.MethodCallMessage._maxMsgLen), 'T', 'T', _opt_s('/a'), _opt_s('M'), 'N',
+                     'N', 'N', 'N', 'N', _opt_s(x['sig']), 'N', str(len(x['body_toks']))] + x['body_toks']
+        toks.append('E')
+        lines.append(' '.join(toks))
+    out = ctx.model(lines)
+    probe_faults = 0
+    for k, items in enumerate(hist):
+        inp = {'constructions': [{'signature': x['sig'], 'body': repr(x['body'])} for x in items],
+               'note': 'MethodCallMessage(path, member, signature=, body=) without the oobFDs keyword, in this order'}
+        ctx.case('sender-default-list', sample=inp, nontrivial=any(x['fds'] for x in items))
+        ms = []
+        for x in items:
+            if x['msg'] is None:
+                ms.append('M err=%s' % x['err'])
+            else:
+                ms.append('M raw=%s send=%s tree=%s' % (x['msg'].rawMessage.hex(), ' '.join(norm_calls(x['calls'])), x['tree']))
+        il = ' ; '.join(ms) + ' ||  | - - L 0 0 -'
+        if out is not None and out[k] != il:
+            ctx.disagree('sender-default-list', inp, c04.clip(out[k]), c04.clip(il))
+        for j, x in enumerate(items):
+            if x['msg'] is None:
+                continue
+            ctx.stat('sender-default-list:constructed-with-h=%s' % bool(x['fds']))
+            try:
+                decl, idx = info_of(x['msg'].rawMessage)
+            except Exception:
+                probe_faults += 1
+                break
+            key, what = judge_sender(x['fds'], None, decl, idx, list(getattr(x['msg'], 'oobFDs', None) or []), x['calls'])
+            if key:
+                ctx.violation(key, 'construction %d of a history without the oobFDs keyword: %s' % (j, what), inp=inp,
+                              observed={'calls': x['calls'], 'hdr': decl, 'idx': idx},
+                              expected='every message declares and transmits its OWN descriptors: hdr=k idx=0..k-1 send=f.. W')
+                break
+    if probe_faults:
+        raise RuntimeError('sender-default-list: the probe list of the harness failed on %d histories' % probe_faults)
 
 
 # --------------------------------------------------------------------------------------- end to end, constructed messages
@@ -1244,10 +1569,12 @@ def e2e_message(rng, i):
 
 
 def e2e_impl_line(sent, o):
-    ms = ['M raw=%s send=%s tree=%s' % (x['raw'].hex(), ' '.join(x['calls']), x['tree']) for x in sent]
+    ms = ['M raw=%s send=%s tree=%s' % (x['raw'].hex(), ' '.join(norm_calls(x['calls'])), x['tree']) for x in sent]
     ds = ['D %s a=%s b=%s q=%s p=%s' % (d['raw'] or '-', nl(d['args']), nl(d['qb']), nl(d['qa']), d.get('body', '!'))
           for d in o['log']]
-    return ' ; '.join(ms) + ' || ' + ' ; '.join(ds) + ' | ' + (o['buffer'] or '-') + ' ' + nl(o['queue'])
+    # the literal receiver of the model (`litRecvRun`): hook calls made, crashed?, final queue
+    return (' ; '.join(ms) + ' || ' + ' ; '.join(ds) + ' | ' + (o['buffer'] or '-') + ' ' + nl(o['queue'])
+            + ' L %d %d %s' % (len(o['log']), 1 if o['crashed'] else 0, nl(o['queue'])))
 
 
 def stream_end_to_end(ctx):
@@ -1274,9 +1601,25 @@ def stream_end_to_end(ctx):
             writes = getattr(tr, 'writes', [])[nwrites:]
             sent.append({'raw': b''.join(writes), 'calls': calls, 'tree': x['tree'], 'nwrites': len(writes),
                          'sent_fds': [int(c[1:]) for c in calls if c != 'W']})
+        # state-leak round (STATE_AUDIT E, C20): the SAME message objects sent once more, on another connection - the
+        # descriptors belong to the message, not to its first transmission
+        resent = None
+        if sender_fault is None and rng.random() < 0.3:
+            tr2 = RecTransport()
+            p2 = protocol.BasicDBusProtocol()
+            p2.transport = tr2
+            resent = []
+            for x in built:
+                before = len(tr2.calls)
+                try:
+                    p2.sendMessage(x['msg'])
+                except Exception as e:
+                    resent.append(['!' + type(e).__name__])
+                    continue
+                resent.append(tr2.calls[before:])
         ctx.impl_trace()
         if sender_fault is not None:
-            cases.append((built, sent, None, None, sender_fault))
+            cases.append((built, sent, None, None, sender_fault, None))
             continue
         # what the wire carries: per message the descriptors handed to the transport and the bytes written
         wire = [{'raw': x['raw'], 'fds': x['sent_fds']} for x in sent]
@@ -1286,9 +1629,9 @@ def stream_end_to_end(ctx):
         reads = c04.random_partition(rng, stream)
         allfds = [d for w in wire for d in w['fds']]
         events = interleave(reads, allfds, random_slots(rng, deadlines(wire, reads), len(reads)))
-        cases.append((built, sent, events, len(stream) == sum(len(w['raw']) for w in wire), None))
+        cases.append((built, sent, events, len(stream) == sum(len(w['raw']) for w in wire), None, resent))
     lines = []
-    for built, sent, events, complete, fault in cases:
+    for built, sent, events, complete, fault, resent in cases:
         if fault is not None:
             lines.append('X 0 E')
             continue
@@ -1299,7 +1642,8 @@ def stream_end_to_end(ctx):
         toks += [e if len(e) > 1 else 'r-' for e in events]
         lines.append(' '.join(toks))
     out = ctx.model(lines)
-    for k, (built, sent, events, complete, fault) in enumerate(cases):
+    probe_faults = 0
+    for k, (built, sent, events, complete, fault, resent) in enumerate(cases):
         inp = {'calls': [' '.join(x['call']) for x in built], 'fds': [x['fds'] for x in built],
                'sigs': [x['sig'] for x in built], 'events': events}
         nfds = sum(len(x['fds']) for x in built)
@@ -1316,17 +1660,32 @@ def stream_end_to_end(ctx):
             continue
         # ---- S4, sender (implementation only): descriptors of every message, in argument order, then its bytes
         sender_ok = True
-        for x, y in zip(built, sent):
-            if y['nwrites'] != 1 or y['raw'] != x['msg'].rawMessage:
-                key, what = 'sender-nothing-sent', 'sendMessage wrote %d times for one message' % y['nwrites']
+        for j, (x, y) in enumerate(zip(built, sent)):
+            if y['raw'] != x['msg'].rawMessage:
+                key, what = 'sender-nothing-sent', ('sendMessage wrote %d times, %d bytes in all, for a message of %d bytes'
+                                                   % (y['nwrites'], len(y['raw']), len(x['msg'].rawMessage)))
             else:
-                decl, idx = info_of(y['raw'])
+                try:
+                    decl, idx = info_of(y['raw'])
+                except Exception as e:
+                    # the harness's probe list does not get through this parser: nothing is judged from it (obligation below)
+                    probe_faults += 1
+                    sender_ok = False
+                    if probe_faults == 1:
+                        ctx.note('end-to-end-constructed: the probe parse raised %s: %s' % (type(e).__name__, e))
+                    break
                 key, what = judge_sender(x['fds'], None, decl, idx, list(getattr(x['msg'], 'oobFDs', None) or []),
                                          y['calls'])
+                if not key and resent is not None and norm_calls(resent[j]) != norm_calls(y['calls']):
+                    key, what = ('sender-resend-differs',
+                                 'the same message object sent on a second connection: transport calls %r, on the first '
+                                 'connection %r' % (resent[j], y['calls']))
             if key:
                 sender_ok = False
                 ctx.violation(key, what, inp=inp, observed=y['calls'], expected='hdr=k idx=0..k-1 oob=fds send=f.. W')
                 break
+        if resent is not None:
+            ctx.stat('end-to-end-constructed:sent-on-two-connections')
         # ---- the real receiver on the recorded stream
         try:
             o = observe(ctx, events, 'binary', want_body=True)
@@ -1351,6 +1710,9 @@ def stream_end_to_end(ctx):
             ctx.violation(key, what, inp=inp, observed={'log': [dict(d, body=None) for d in o['log']], 'queue': o['queue']},
                           expected='every message delivered with exactly the descriptors attached to it, in order, '
                                    'none left queued')
+    if probe_faults:
+        raise RuntimeError('end-to-end-constructed: the probe list of the harness failed on %d cases - the sender oracle '
+                           'did not run for them (repair `Probe`)' % probe_faults)
 
 
 def stream_info_of_parse(ctx):
@@ -1379,17 +1741,25 @@ def stream_info_of_parse(ctx):
                                            lendian=not big)[1])
             raws.append(hdr + b'\0' * (-len(hdr) % 8) + bodyb)
     out = ctx.model(['I ' + r.hex() for r in raws])
+    failed, with_idx = 0, 0
     for k, raw in enumerate(raws):
         try:
             decl, idx = info_of(raw)
         except Exception as e:
-            ctx.note('info-of-parse: the real parser raised %s on a generated message' % type(e).__name__)
+            failed += 1
+            if failed == 1:
+                ctx.note('info-of-parse: the probe parse raised %s on a generated message: %s' % (type(e).__name__, e))
             continue
         ctx.case('info-of-parse', sample=raw.hex(), nontrivial=bool(idx))
+        with_idx += bool(idx)
         ctx.stat('info-of-parse:%s,indices=%d' % ('big' if raw[:1] == b'B' else 'little', len(idx)))
         il = '%s %s' % ('-' if decl is None else decl, nl(idx))
         if out is not None and out[k] != il:
             ctx.disagree('info-of-parse', raw.hex(), out[k], il)
+    # no cases = not green (review 3, F6): a probe that the parser under test rejects must not turn the stream quiet
+    if failed or not with_idx:
+        raise RuntimeError('info-of-parse: the probe parse failed on %d of %d messages, %d messages with indices were '
+                           'compared - the tie of infoOfParse did not run' % (failed, len(raws), with_idx))
 
 
 # --------------------------------------------------------------------------------------- entry points
@@ -1397,6 +1767,9 @@ def run_corpus_entry(ctx, B, data):
     sc = data.get('input', data)
     if sc.get('mode') == 'reentrant':
         run_reentrant(ctx, sc)
+        return
+    if sc.get('mode') == 'connections':
+        run_connections_batch(ctx, [sc])
         return
     if 'events' in sc:
         if 'raws' not in sc:
@@ -1428,6 +1801,8 @@ def run(ctx):
     guarded(stream_recv_handshake, ctx, B)
     guarded(stream_recv_malformed, ctx, B)
     guarded(stream_recv_reentrant, ctx)
+    guarded(stream_recv_connections, ctx)
+    guarded(stream_sender_default_list, ctx)
     guarded(stream_end_to_end, ctx)
     guarded(stream_info_of_parse, ctx)
     for st, k in sorted(SKIPPED.items()):
